@@ -46,6 +46,13 @@ def instances(tier, rng):
                     r["k"] = kp
                 r.update({k: v for k, v in cfg.items() if k != "mode"})
                 insts.append(r)
+    single = {"nodes": ["a"], "edges": [], "ew": [], "nw": [3], "proutes": [["a"]], "pweights": [3]}
+    for cls in ("kFlowDecomp", "MinFlowDecomp", "kFlowDecompCycles", "MinFlowDecompCycles"):      # single-node, node-weighted
+        r = C.base(single, cls, "node")
+        r["wt"] = "int"
+        if cls.startswith("k"):
+            r["k"] = 1
+        insts.append(r)
     for u in cyc_s:
         kp = len(u["proutes"])
         for cls in ("kFlowDecompCycles", "MinFlowDecompCycles"):
